@@ -17,6 +17,12 @@
  * ============================================================================
  */
 
+static int compare_boolean(const void* a, const void* b) {
+    uint8_t va = *(const uint8_t*)a;
+    uint8_t vb = *(const uint8_t*)b;
+    return (va > vb) - (va < vb);
+}
+
 static int compare_int32(const void* a, const void* b) {
     int32_t va = *(const int32_t*)a;
     int32_t vb = *(const int32_t*)b;
@@ -56,8 +62,9 @@ typedef int (*compare_fn_t)(const void*, const void*);
 
 static compare_fn_t get_compare_fn(carquet_physical_type_t type) {
     switch (type) {
-        case CARQUET_PHYSICAL_INT32:
         case CARQUET_PHYSICAL_BOOLEAN:
+            return compare_boolean;  /* one byte, not four */
+        case CARQUET_PHYSICAL_INT32:
             return compare_int32;
         case CARQUET_PHYSICAL_INT64:
             return compare_int64;
@@ -183,6 +190,17 @@ carquet_status_t carquet_reader_row_group_matches(
     compare_fn_t cmp_fn = get_compare_fn(type);
 
     int cmp_min, cmp_max;
+
+    if (cmp_fn) {
+        /* The typed comparators read a fixed number of bytes. Statistics come
+         * from the file and the probe from the caller: if either is shorter
+         * than the type, nothing can be decided (and nothing may be read). */
+        int32_t width = (type == CARQUET_PHYSICAL_BOOLEAN) ? 1 :
+                        (type == CARQUET_PHYSICAL_INT32 || type == CARQUET_PHYSICAL_FLOAT) ? 4 : 8;
+        if (value_size < width || stats.min_value_size < width || stats.max_value_size < width) {
+            return CARQUET_OK;
+        }
+    }
 
     if (cmp_fn) {
         cmp_min = cmp_fn(value, stats.min_value);
